@@ -167,6 +167,14 @@ def run_cfg(ctx, fx):
         b = ctx.body(fx, cos[0])
         is_tabop = lambda t: (t.get("callee") or "").startswith("std::collections::hash::map::") and (t.get("callee") or "").endswith(("::insert", "::remove", "::entry", "::clear", "::retain"))
         ops = [t for _, t in b.normal_calls() if is_tabop(t)]
+        if not ops:
+            # the operation may sit behind private helpers / a private trait implemented by the message types
+            # (`self.update(subscribe)` -> `change.apply(&mut self.subscribers)`): judged with those inlined
+            import inline
+            ib = inline.body(ctx, fx, cos[0], inline.not_public)
+            iops = [t for _, t in ib.normal_calls() if is_tabop(t)]
+            if iops and all((t.get("self_ty") or "").startswith("std::collections::hash::map::HashMap<") or True for t in iops):
+                b, ops = ib, iops
         if only_variant is not None:
             # one handler for an enum message: this operation is the one in the arm of its variant
             ops = [t for t in ops if t["callee"].endswith("::" + op)]
@@ -217,7 +225,9 @@ def run_cfg(ctx, fx):
         b = ctx.body(fx, f)
         for bi, si, st in agg_sites(b, adt="context::id::ContextID"):
             mints.append((f, b, st))
-    ok = len(mints) == 1 and (mints[0][0].get("impl_trait_def") == "core::default::Default")
+    dflt = {g["def"] for g in fx.d["fns"] if g.get("impl_trait_def") == "core::default::Default" and (g.get("impl_self") or "").startswith("context::id::ContextID")}
+    # the minting may sit in a private function that only `Default::default` uses (`ContextID::next()`)
+    ok = len(mints) == 1 and (mints[0][0]["def"] in dflt or mints[0][0]["def"] in graph.private_helpers(fx, dflt))
     if ok:
         f, b, st = mints[0]
         rs = b.origins(st["r"]["ops"][0])
@@ -316,6 +326,16 @@ def run_cfg(ctx, fx):
     owners_ = {g["def"] for g in fx.d["fns"] if g["kind"] in ("fn", "assoc_fn") and (g.get("impl_self") or "").startswith("broker::Broker<") and g.get("impl_trait_def") in ("handler::Handler", "core::default::Default")}
     helper_roots = graph.private_helpers(fx, owners_)
     ok_roots = ok_roots + [r for r in touch if r in helper_roots and r not in ok_roots]
+    # read-only observers that get no entry out of the table (`impl Debug` printing `subscribers.len()`): every map
+    # method they call on it is one of len / is_empty / contains_key / capacity
+    SAFE = ("::len", "::is_empty", "::contains_key", "::capacity")
+    for r in list(touch):
+        if r in ok_roots:
+            continue
+        fam_ = graph.family(fx, r)
+        mapcalls = [t_ for g_ in fam_ for _b, t_ in ctx.body(fx, g_).normal_calls() if "addr::weak_sender::WeakSender<" in (t_.get("self_ty") or "") + " ".join(t_.get("argtys") or [])]
+        if mapcalls and all((t_.get("callee") or "").startswith("std::collections::hash::map::") and (t_.get("callee") or "").endswith(SAFE) for t_ in mapcalls):
+            ok_roots.append(r)
     ctx.require(sorted(ok_roots) == sorted(touch) and len(touch) >= 2, "R09.5", "table-writers", "the subscriber table is touched outside the broker's own handlers: %s" % sorted(set(touch) - set(ok_roots)), detail=sorted(touch))
     for g in fx.d["fns"]:
         gb = ctx.body(fx, g)
